@@ -293,11 +293,11 @@ pub fn run(g: &mut Global) {
         &check,
     );
     let cap = g.tier.pick(256usize, 2048usize);
-    g.random("random", g.tier.pick(100000, 400000), &move || strategy(cap, false), &check);
+    g.random("random", g.tier.pick(250000, 500000), &move || strategy(cap, false), &check);
     if g.tier == Tier::Thorough {
         g.random("deep", 3000, &move || strategy(64, true), &check);
     }
-    g.random("dataitem", g.tier.pick(4000, 40000), &item_strategy, &check_item);
+    g.random("dataitem", g.tier.pick(40000, 200000), &item_strategy, &check_item);
     // very large windows (beyond 4096 and beyond 65535 slots), full and wrapped, with random, flat and
     // plateau histories: length-prefixed containers, pre-allocation caps and run-length encodings live here
     let seed = g.seed;
